@@ -571,14 +571,23 @@ func mixCase(t *rapid.T, s string) string {
 func genAccept(t *rapid.T) (string, acceptInfo) {
 	var info acceptInfo
 	noOWSSemi := stats.Excl("accept.ows_before_semicolon")
+	// mostly short headers; one in eight is as long as what browsers send (a dozen ranges, the usable one far behind)
 	n := rapid.IntRange(1, 4).Draw(t, "elements")
+	if rapid.IntRange(0, 7).Draw(t, "long_header") == 0 {
+		n = rapid.IntRange(8, 14).Draw(t, "many_elements")
+	}
+	long := n >= 8
 	if rapid.IntRange(0, 19).Draw(t, "emptyHeader") == 0 {
 		return "", acceptInfo{wildcard: true, firstKind: "empty_header"} // no Accept header = anything is acceptable
 	}
 	var parts []string
 	for i := 0; i < n; i++ {
 		var el, kind string
-		switch k := rapid.IntRange(0, 9).Draw(t, "elkind"); {
+		k := rapid.IntRange(0, 9).Draw(t, "elkind")
+		if long && i < n-2 && k <= 5 && rapid.IntRange(0, 3).Draw(t, "unsupported_first") != 0 {
+			k = 7 // in a long header most of the front entries name nothing this side can produce
+		}
+		switch {
 		case k <= 3:
 			sub := rapid.SampledFrom(subtypeNames).Draw(t, "subtype")
 			if rapid.IntRange(0, 7).Draw(t, "bare") == 0 {
